@@ -116,6 +116,12 @@ ConvTags(rec, tl) ==
          THEN {"Converged|" \o (IF tl[o][g] = "on" THEN "stale_on" ELSE "missed_on") \o "|" \o g \o "|" \o o \o "|" \o g} ELSE {}
          : o \in Users} : g \in Groups}
 
+\* "idle topics unloaded" must be reachable: when the harness fires the idle timer of a loaded topic without attached
+\* sessions, the server must have armed that timer itself (otherwise the topic stays loaded, and online for its
+\* members / the user's partners, for ever)
+IdleTags(rec) ==
+  IF rec.act.a = "Unload" /\ rec.idle.idle /\ ~rec.idle.armed THEN {"Converged|idle_timer_not_armed|" \o rec.idle.t \o "|-|-"} ELSE {}
+
 \* ------------------------------------------------------------------ binding: Presence.tla from the real pre-state
 TopOf(rec, tn, x) ==
   IF ~rec.loaded[tn] THEN OffTop
@@ -178,6 +184,6 @@ Next == /\ k < NT
                tl == ToldAfter(told, rec) IN
            /\ k' = k + 1
            /\ told' = tl
-           /\ bad' = LeakTags(pre, rec) \cup CountTags(rec) \cup ConvTags(rec, tl)
+           /\ bad' = LeakTags(pre, rec) \cup CountTags(rec) \cup ConvTags(rec, tl) \cup IdleTags(rec)
            /\ div' = Diverge(pre, rec, told, tl)
 =============================================================================
